@@ -44,6 +44,7 @@
 	X(m_rng_init, 1)    /* the LPs draw from the library generator at LP_INIT already (else their first draw is in an event) */   \
 	X(m_rng_craft, 0)   /* sometimes the generator is put into a state whose next output is an extreme value (0, 1, 2^63, ...) */             \
 	X(m_forward, 0)     /* sometimes an event is forwarded unchanged (same timestamp, type and payload) to another LP */                    \
+	X(m_endless, 0)     /* the event population never dies out: the run can only end through the predicates (or a stop / termination time) */ \
 	X(m_nosend, 0)      /* some events send nothing at all (the self chain is then sent twice by the previous one) */     \
 	X(m_topo, 0)        /* topology geometry (0 none) */                                                          \
 	X(m_topo_w, 3)                                                                                                 \
